@@ -432,7 +432,7 @@ func ExecReader(data any, selector string) (any, error) {
 	verifCache("lock", selector)
 	if _, ok := cache[selector]; !ok {
 		allSelectors := make([][]any, 0)
-		selectors := strings.Split(selector, "::")
+		selectors := splitContinuations(selector)
 		for _, item := range selectors {
 			selectors, err := ParseSelector(item)
 			if err != nil {
@@ -459,6 +459,25 @@ func ExecReader(data any, selector string) (any, error) {
 		result = rs
 	}
 	return result, nil
+}
+
+// splitContinuations cuts a selector at its `::` marks - those outside quoted keys: a key
+// wrapped in single quotes is literal, whatever it contains
+func splitContinuations(selector string) []string {
+	parts := make([]string, 0, 1)
+	quoted := false
+	start := 0
+	for i := 0; i < len(selector); i++ {
+		switch {
+		case selector[i] == '\'':
+			quoted = !quoted
+		case !quoted && selector[i] == ':' && i+1 < len(selector) && selector[i+1] == ':':
+			parts = append(parts, selector[start:i])
+			start = i + 2
+			i++
+		}
+	}
+	return append(parts, selector[start:])
 }
 
 func ReaderExecutor(data any, selectors []any) (any, error) {
